@@ -118,8 +118,8 @@ func verifC19NoOverwrite() {
 	verifrt.Assert(inOut, "closed-file-arrives-in-output-dir")
 	verifrt.Observe("files", len(after))
 	verifrt.Reach("no-collision", len(existed) == 0 && late == 0)
-	verifrt.Reach("collision-at-hand-off-resolved-by-next-revision", late == 2 && r.links == 2)
-	verifrt.Reach("collision-in-output-dir-skipped", cfg.workDir && len(existed) > 0 && r.links == 2)
+	verifrt.Reach("collision-at-hand-off-resolved-by-next-revision", late == 2 && verifGhost(r.links == 2))
+	verifrt.Reach("collision-in-output-dir-skipped", cfg.workDir && len(existed) > 0 && verifGhost(r.links == 2))
 	verifrt.Reach("all-candidate-names-taken", len(existed) == len(dirs)*revs)
 	verifrt.Reach("appended-to-existing-file", !exclusive && len(existed) > 0 && len(after) == len(before))
 }
